@@ -42,6 +42,8 @@ let field_str = function
   | FS t -> coqstr t
   | FN n -> string_of_int (int_of_nat n)
   | FV v -> hexbytes_of_zlist v
+  | FP None -> "nil"
+  | FP (Some k) -> "c" ^ string_of_int (int_of_nat k)
 
 let print_line (l : line) =
   print_string ("= " ^ who_str l.l_who ^ " d" ^ string_of_int (int_of_nat l.l_dep) ^ " " ^ coqstr l.l_tag);
